@@ -345,6 +345,79 @@ class Fn:
             self._mutb = out
         return self._mutb
 
+    def live_in(self):
+        """Per block: the locals whose current value may still be read at the block's entry (backward liveness over every mention of a
+        local; a local whose address is taken anywhere is always live).  Over-approximate: a partial write counts as a use."""
+        if getattr(self, '_live', None) is not None:
+            return self._live
+        nb = len(self.blocks)
+        use = [set() for _ in range(nb)]
+        kill = [set() for _ in range(nb)]
+        always = set(range(0, self.arg_count + 1))
+
+        def mentions(x, acc):
+            if isinstance(x, dict):
+                if 'l' in x and isinstance(x.get('p'), list):
+                    acc.add(x['l'])
+                    for p_ in x['p']:
+                        if isinstance(p_, dict) and p_.get('k') == 'index' and isinstance(p_.get('l'), int):
+                            acc.add(p_['l'])
+                for k_, v in x.items():
+                    if k_ != 'sp':
+                        mentions(v, acc)
+            elif isinstance(x, list):
+                for e in x:
+                    mentions(e, acc)
+
+        for bi, b in enumerate(self.blocks):
+            u, k = use[bi], kill[bi]
+            for s_ in b['stmts']:
+                kk = s_['k']
+                if kk == 'assign':
+                    acc = set()
+                    mentions(s_['rv'], acc)
+                    if s_['rv']['k'] in ('ref', 'rawptr'):
+                        always.add(s_['rv']['pl']['l'])
+                    if s_['pl']['p']:
+                        mentions(s_['pl'], acc)
+                    u |= (acc - k)
+                    if not s_['pl']['p']:
+                        k.add(s_['pl']['l'])
+                elif kk in ('dead', 'live'):
+                    k.add(s_['l'])
+                else:
+                    acc = set()
+                    mentions(s_, acc)
+                    u |= (acc - k)
+            t = b['term']
+            if t:
+                acc = set()
+                for key_, v in t.items():
+                    if key_ in ('dest', 'resume_arg', 'sp'):
+                        continue
+                    mentions(v, acc)
+                for key_ in ('dest', 'resume_arg'):
+                    d_ = t.get(key_)
+                    if isinstance(d_, dict) and d_.get('p'):
+                        mentions(d_, acc)
+                u |= (acc - k)
+        live = [set() for _ in range(nb)]
+        succ = [set(self.succs(bi, unwind=True)) for bi in range(nb)]
+        # a call's destination is written on the normal edge only: not killed (conservative)
+        changed = True
+        while changed:
+            changed = False
+            for bi in range(nb - 1, -1, -1):
+                out = set()
+                for s_ in succ[bi]:
+                    out |= live[s_]
+                new = use[bi] | (out - kill[bi])
+                if new != live[bi]:
+                    live[bi] = new
+                    changed = True
+        self._live = [l_ | always for l_ in live]
+        return self._live
+
     def local_name(self, l):
         return self.locals[l].get('name')
 
